@@ -256,6 +256,18 @@ def gen_scale(rng):
     ops += ['S,%d,1,100,0a0b' % c, '*', 'F,%d,1' % c, '*']
     return '%d %s' % (ncl, ' '.join(ops))
 
+def late_clients(rng, ncl, u):
+    """1-4 new clients connect after a teardown (their daemon-side descriptors reuse whatever numbers
+    are free; they are served by the real event loop) and each issues requests that must complete."""
+    k = rng.choice([1, 2, 2, 3, 4])
+    ops = []
+    for i in range(ncl, ncl + k):
+        ops += ['C,%d' % i, 'F,%d,%d' % (i, u), '*', 'N,%d,%d,%s' % (i, u, rng.choice(NAMES)), '*',
+                'I,%d,%d' % (i, u), '*']
+        if rng.random() < 0.4:
+            ops += ['G,%d,%d,1' % (i, u), '*', 'S,%d,%d,100,0c0d' % (i, u), '*']
+    return k, ops
+
 def gen_pipeline_disconnect(rng):
     """A client pipelines several requests and disconnects before the daemon has run: the daemon
     handles the head of the channel, the first reply write fails, the rest of the channel is dropped
@@ -292,6 +304,9 @@ def gen_pipeline_disconnect(rng):
         if rng.random() < 0.4:
             ops += ['S,%d,%d,100,%s' % (o, u, frame(rng)), '>,%d' % o]
     ops += ['*', 'F,%d,%d' % (o, u), 'I,%d,%d' % (o, u), '*', 'H', 'F,%d,%d' % (o, u), '*']
+    if rng.random() < 0.5:
+        k, lops = late_clients(rng, ncl, u)
+        return '%d:%s %s' % (ncl + k, 'p' * ncl + 'L' * k, ' '.join(ops + lops))
     return '%d %s' % (ncl, ' '.join(ops))
 
 def gen_gc_resume(rng):
@@ -340,7 +355,7 @@ def gen_backpressure(rng):
     ncl = rng.choice([2, 3, 3])
     x = ncl - 1
     src = 0
-    types = 'p' * (ncl - 1) + 't'
+    types = 'p' * (ncl - 1) + rng.choice(['t', 'T', 'T'])   # T: the sink's daemon side stays with the real event loop
     u = rng.choice([1, 1, 2])
     ops = ['G,%d,%d,1' % (x, u), '*']
     if ncl == 3 and rng.random() < 0.5:
@@ -357,6 +372,9 @@ def gen_backpressure(rng):
         ops.append(rng.choice(['F,%d,%d' % (x, u), 'X,%d,%d,%d' % (x, rng.randrange(18), u), 'G,%d,%d,1' % (x, u),
                                'S,%d,%d,100,07' % (x, u)]))
     ops += ['*', 'F,%d,%d' % (src, u), 'I,%d,%d' % (src, u), '*', 'H', 'F,%d,%d' % (src, u), '*']
+    if rng.random() < 0.7:
+        k, lops = late_clients(rng, ncl, u)
+        return '%d:%s %s' % (ncl + k, types + 'L' * k, ' '.join(ops + lops))
     return '%d:%s %s' % (ncl, types, ' '.join(ops))
 
 def gen_cases(rng, tier):
@@ -375,7 +393,7 @@ def gen_cases(rng, tier):
         yield gen_pipeline_disconnect(rng)
     for i in range(n // 10):
         yield gen_gc_resume(rng)
-    for i in range(max(6, n // 150)):
+    for i in range(max(12, n // 100)):
         yield gen_backpressure(rng)
 
 def nontrivial(payload, md):
@@ -385,7 +403,7 @@ def nontrivial(payload, md):
 RULE = ('histories of 6-36 client-library calls by 2-4 real OlaClient instances (in a fifth of the histories one of them a real StreamingClient over loopback TCP) against one real OlaServer '
         '(acked/streamed/raw-protobuf sends with frame sizes {0,1,2,3,4,512,513,600} and priorities '
         '{0,1,99,100,101,199,200,201,255 | absent,256,300,456,511,2^31-1}, fetch, register/unregister, merge mode, '
-        'name (up to 15000 characters), info, patch and seventeen further request kinds as opaque completions (plugin list/description/state, device info, candidate ports, ConfigureDevice with payloads up to 30000 bytes, port priority, cached/incremental/full discovery, RDM get/set, time code, plugin reload, plugin state, universe list with up to 400 universes, source UID), back-pressure histories (a TCP sink stops reading while a source floods full frames until a daemon-side write fails, then resumes), histories in which a universe is garbage-collected underneath a connected but silent client that then resumes, disconnects anywhere, half of the histories drawing frames/priorities from a 2-3 entry palette so senders repeat identical frames, plus dedicated repeat-identical-frame histories (acked and streamed, LTP/HTP, with a higher-priority sender going quiet across the 2.5 s source timeout), histories in which a client pipelines several requests and disconnects before the daemon runs, histories in which frames of two senders are dispatched in the same event-loop iteration while the clock moves on (ops J/}: wake-up time vs fresh clock), clock ticks {0,1,1000,2499999,2500000,2500001 us}, housekeeping); '
+        'name (up to 15000 characters), info, patch and seventeen further request kinds as opaque completions (plugin list/description/state, device info, candidate ports, ConfigureDevice with payloads up to 30000 bytes, port priority, cached/incremental/full discovery, RDM get/set, time code, plugin reload, plugin state, universe list with up to 400 universes, source UID), histories in which 1-4 new clients connect after a failed-send teardown or a disconnect and are served by the real event loop (descriptor-number reuse), back-pressure histories (a TCP sink stops reading while a source floods full frames until a daemon-side write fails, then resumes), histories in which a universe is garbage-collected underneath a connected but silent client that then resumes, disconnects anywhere, half of the histories drawing frames/priorities from a 2-3 entry palette so senders repeat identical frames, plus dedicated repeat-identical-frame histories (acked and streamed, LTP/HTP, with a higher-priority sender going quiet across the 2.5 s source timeout), histories in which a client pipelines several requests and disconnects before the daemon runs, histories in which frames of two senders are dispatched in the same event-loop iteration while the clock moves on (ops J/}: wake-up time vs fresh clock), clock ticks {0,1,1000,2499999,2500000,2500001 us}, housekeeping); '
         '1/3 drained after every call, 2/3 with an explicit random schedule of per-channel deliveries; compared after '
         'every step; non-trivial = at least one successful completion and one DMX push delivered to a registered '
         'client; distinct = distinct model output line')
